@@ -75,9 +75,17 @@ class Method(Variable):  # i.e. TypeBound procedure
             sub_sig, _ = self.get_snippet()
             hover_str = f"{self.get_desc()} {sub_sig}"
         else:
-            link_msg, link_docs = self.link_obj.get_hover(
-                long=True, drop_arg=self.drop_arg
-            )
+            # A dummy procedure declared with its own host (or with a procedure that
+            # takes this one) as interface would be described in terms of itself
+            if getattr(self, "_in_get_hover", False):
+                return f"{self.get_desc()} {self.name}", docs
+            self._in_get_hover = True
+            try:
+                link_msg, link_docs = self.link_obj.get_hover(
+                    long=True, drop_arg=self.drop_arg
+                )
+            finally:
+                self._in_get_hover = False
             # The linked object (e.g. a generic interface) has no hover text of its own
             if link_msg is None:
                 return f"{self.get_desc()} {self.name}", docs
